@@ -24,17 +24,20 @@ def floors(tier):
     k = 1 if tier == "quick" else 7
     return {"calls_judged": 3000 * k, "single_code_injections": 2000 * k, "retried_calls": 300 * k, "sleeps_compared": 600 * k,
             "deadlines_compared": 2500 * k, "retry_error_by_deadline": 20 * k, "unnamed_method_calls": 800 * k, "override_calls": 200 * k,
-            "client:aio": 1200 * k, "retry_only_entry_failing_for_minutes": 4 * k, "second_page_fault_calls": 40 * k, "rest_calls_judged": 150 * k, "rest_deadlines_compared": 40 * k}
+            "client:aio": 1200 * k, "retry_only_entry_failing_for_minutes": 4 * k, "second_page_fault_calls": 40 * k, "rest_calls_judged": 150 * k, "rest_deadlines_compared": 40 * k, "sub_package_cases": 2 if tier == "quick" else 8}
 
 
 def plan(seed, tier):
     n = 10 if tier == "quick" else 70
-    return [{"id": f"retry-{seed}-{i}", "seed": seed * 100003 + i} for i in range(n)]
+    cases = [{"id": f"retry-{seed}-{i}", "seed": seed * 100003 + i} for i in range(n)]
+    # services in a proto sub-package: the config names them by their full proto name
+    cases += [{"id": f"retry-sub-{seed}-{i}", "seed": seed * 100003 + 4000 + i, "subpkg": True} for i in range(2 if tier == "quick" else 10)]
+    return cases
 
 
 def build_api(case):
     rng = random.Random(case["seed"])
-    return apigen.retry_api(rng, "y%d" % (case["seed"] % 100000))
+    return apigen.retry_api(rng, "y%d" % (case["seed"] % 100000), subpkg=bool(case.get("subpkg")))
 
 
 def dur(s):
@@ -170,7 +173,7 @@ def run_case(case):
                     calls.append({"service": s.name, "full_service": fs, "rpc": m.name, "method": rdm.py_method(m.name), "client": client,
                                   "seq": seq, "shape": "fault-on-second-page", "override": ov, "req_type": m.input_type.lstrip("."),
                                   "paged": {"page1": rdm.b64(p1.SerializeToString()), "page2": rdm.b64(p2.SerializeToString())}})
-    script = {"root_pkg": apigen.lib_root(api.info, api.options), "calls": calls}
+    script = {"root_pkg": apigen.lib_root(api.info, api.options) + ("." + api.info["sub"] if api.info.get("sub") else ""), "calls": calls}
     ev, rc, err = pipeline.run_runner("checks.c09", script, lib, timeout=500)
     if ev is None or "runner_crash" in ev or "library_import_error" in ev:
         return pipeline.runner_failed_result(ev, rc, err, api)
@@ -180,6 +183,8 @@ def run_case(case):
         counters[k] = counters.get(k, 0) + n
 
     sample = None
+    if case.get("subpkg"):
+        bump("sub_package_cases")
     for call, r in zip(calls, ev["results"]):
         entry = entry_for(cfg, call["full_service"], call["rpc"])
         kind = "unnamed" if not entry else ("+".join(k for k in ("timeout", "retryPolicy") if k in entry))
